@@ -168,7 +168,7 @@ def getitem_spec(I, data, key):
     that of the selected columns, in the selected order; a single value is a plain scalar."""
     attrs = I.np.ensure_attrs(data)
     two = isinstance(key, Seq) and key.kind == 'tuple' and len(key.items) == 2
-    if two and key.items[0] is not None and key.items[1] is not None:
+    if two and key.items[0] is not None and key.items[1] is not None and not isinstance(key.items[1], EllipsisV):
         key_event, key_channel = key.items
         if not isinstance(key_channel, SliceV):
             key_channel = n2i_spec(I, data, key_channel)
@@ -186,7 +186,7 @@ def getitem_spec(I, data, key):
             else:
                 na[a] = select_seq(I, na[a], stamp(SymSeq('list', 1, lambda I_, k_, kc=kc: kc)), kind)
         return new
-    if two:
+    if two and (key.items[0] is None or key.items[1] is None):
         new = I.np.getitem(data, key)
         return I.np.m_view(new, I.np.table['numpy.ndarray'])
     new = I.np.getitem(data, key)
@@ -197,7 +197,7 @@ def getitem_spec(I, data, key):
 
 def setitem_spec(I, data, key, item):
     two = isinstance(key, Seq) and key.kind == 'tuple' and len(key.items) == 2
-    if two and key.items[0] is not None and key.items[1] is not None:
+    if two and key.items[0] is not None and key.items[1] is not None and not isinstance(key.items[1], EllipsisV):
         key_event, key_channel = key.items
         if not isinstance(key_channel, SliceV):
             key_channel = n2i_spec(I, data, key_channel)
